@@ -1,6 +1,6 @@
 (** C14 — origin re-announcements always refresh every receiver. *)
 From Coq Require Import List NArith Bool.
-From MM Require Import Model.Flood Model.FloodPreFix Proofs.FloodPreFixProofs Proofs.FloodBase Proofs.FloodOnce Proofs.FloodSeq Proofs.FloodConv Generated.C14 Generated.C15.
+From MM Require Import Model.Flood Model.FloodPreFix Proofs.FloodPreFixProofs Proofs.FloodBase Proofs.FloodOnce Proofs.FloodSeq Proofs.FloodConv Generated.C14 Generated.C15 Generated.C11.
 Import ListNotations.
 Local Open Scope N_scope.
 
@@ -164,3 +164,19 @@ Theorem C14_hop_limit_facts :
 Proof. repeat split; reflexivity. Qed.
 End HopFacts.
 Print Assumptions C14_hop_limit_facts.
+
+(** Withdrawals share the seen cache with announcements: the key of every
+    insert / lookup is (origin of the advertisement or withdrawal, its
+    sequence) -- never the relaying peer -- and nothing but the TTL cleanup
+    removes entries (same regenerated facts as in C11). *)
+Section SeenKeyFacts.
+Import String.
+Local Open Scope string_scope.
+Theorem C14_seen_key_facts :
+  gen_seen_key_fields = ["OriginAgent"; "Sequence"] /\
+  gen_seen_key_origin_arg = "originAgent" /\ gen_seen_key_sequence_arg = "sequence" /\
+  gen_withdraw_seen_key_origin_arg = "originAgent" /\ gen_withdraw_seen_key_sequence_arg = "sequence" /\
+  gen_only_cleanup_removes_seen_entries = true /\ gen_withdraw_origin_fresh_sequence_own_id = true.
+Proof. repeat split; reflexivity. Qed.
+End SeenKeyFacts.
+Print Assumptions C14_seen_key_facts.
